@@ -125,3 +125,207 @@ _WHY = ("composition of sort / unique / np.split / np.repeat / per-group callbac
 for _n in ("dataiter/data_frame.py::DataFrame.aggregate[partition]", "dataiter/data_frame.py::DataFrame.split[partition]",
            "dataiter/data_frame.py::DataFrame.count[partition]", "dataiter/data_frame.py::DataFrame.modify[grouped]"):
     bounded_only("C04", _n, _WHY)
+
+
+# =====================================================================================================================
+# DataFrame.split under a deductive contract (one and two group columns): the real body is executed; sort and unique enter
+# through callee contracts (their postconditions as proved under C03 / C02), np.split through its model.
+# =====================================================================================================================
+from pyvc.core import Seq, zint, zbool, conc, Unsupported, PyRaise, NONE, MList
+from pyvc import models as M
+from pyvc.models_np import NDArr, KCODE, kind_term
+from pyvc.models_dict import OMap, Entry
+from pyvc.interp import Instance
+from pyvc.speclib import Perm
+from contracts.data_frame import sym_frame, typed_elements, named_column, na_formula, df_classes, DF_CALLEES, _DF
+
+
+def _entries(obj):
+    segs = obj.base.segs if isinstance(obj.base, OMap) else None
+    if not segs or not all(isinstance(s, Entry) for s in segs):
+        raise Unsupported("callee contract (grouping): frame is not a concrete list of named columns")
+    return segs
+
+
+def _keyf(it, col):
+    """value of a key column at a row as unique / sort group it: every missing value counts as None"""
+    s = col.seq
+    return lambda i: z3.If(na_formula(it, kind_term(col.kind), M.to_v(it, s.at(i))), NONE, M.to_v(it, s.at(i)))
+
+
+def _rows_frame(it, obj, r, what):
+    """frame with the same named columns, every column composed with the row selection r (new buffers)"""
+    DF, DFC = df_classes(it)
+    segs = []
+    for e in _entries(obj):
+        s = e.value.seq
+        segs.append(Entry(e.key, NDArr(it.ctx, Seq(r.len, lambda j, s=s: s.at(r.at(j)), s.sort), e.value.kind, owner="fresh", cls=DFC), e.key_py))
+    out = Instance(it.ctx, DF, base=OMap(segs))
+    out.attrs["_group_colnames"] = ()
+    return out
+
+
+def _key_columns(it, obj, names):
+    cols = []
+    for nm in names:
+        hit = [e for e in _entries(obj) if e.key_py == nm]
+        if len(hit) != 1:
+            raise PyRaise("KeyError", str(nm))
+        cols.append(hit[0].value)
+    return cols
+
+
+class _GroupingCallees:
+    """ghost record of what the callee contracts returned (used by the postcondition)"""
+    def __init__(self):
+        self.sort = self.unique = None
+
+    def sort_contract(self, it, args, kwargs):
+        """Callee contract of DataFrame.sort(**{name: 1}) = postcondition proved under C03 (one / two ascending keys): the rows are a
+        permutation sigma of the input rows, ordered by a strict weak order on the key combinations whose equivalence is 'equal
+        values or both missing' in every key column (missing last), and rows with equal keys keep their input order."""
+        obj = args[0]
+        names = list(kwargs)
+        if not names or any(kwargs[n] != 1 for n in names) or len(args) != 1:
+            raise Unsupported("callee contract (grouping): sort other than ascending by named columns")
+        ctx = it.ctx
+        cols = _key_columns(it, obj, names)
+        n = cols[0].seq.len
+        kf = [_keyf(it, c) for c in cols]
+        same = lambda a, b: z3.And(*[f(a) == f(b) for f in kf])
+        pm = Perm(ctx, n, "sorted")
+        klt = ctx.fresh_fn("key_before", INT, INT, BOOL)        # row a sorts strictly before row b (by the key columns)
+        a, b, c = z3.Ints("a!gs b!gs c!gs")
+        rng = lambda *xs: z3.And(*[z3.And(0 <= x, x < zint(n)) for x in xs])
+        ctx.assumptions.append(z3.ForAll([a, b], z3.Implies(rng(a, b), same(a, b) == z3.And(z3.Not(klt(a, b)), z3.Not(klt(b, a)))),
+                                         patterns=[klt(a, b)]))
+        ctx.assumptions.append(z3.ForAll([a, b, c], z3.Implies(z3.And(rng(a, b, c), klt(a, b), klt(b, c)), klt(a, c)),
+                                         patterns=[z3.MultiPattern(klt(a, b), klt(b, c))]))
+        ctx.assumptions.append(z3.ForAll([a, b, c], z3.Implies(z3.And(rng(a, b, c), klt(a, b)), z3.Or(klt(a, c), klt(c, b))),
+                                         patterns=[z3.MultiPattern(klt(a, b), klt(a, c))]))
+        i, j = z3.Ints("i!gs j!gs")
+        pi, pj = pm.perm(i), pm.perm(j)
+        ctx.assumptions.append(z3.ForAll([i, j], z3.Implies(z3.And(0 <= i, i < j, j < zint(n)),
+                                                            z3.And(z3.Not(klt(pj, pi)), z3.Implies(same(pi, pj), pi < pj))),
+                                         patterns=[z3.MultiPattern(pm.perm(i), pm.perm(j))]))
+        r = Seq(n, lambda t: pm.perm(t), INT)
+        out = _rows_frame(it, obj, r, "sorted")
+        self.sort = {"perm": pm, "n": n, "same": same, "klt": klt, "names": names}
+        ctx.used_models.add("callee contract: DataFrame.sort ascending by the group columns (postcondition proved under C03)")
+        return out
+
+    def unique_contract(self, it, args, kwargs):
+        """Callee contract of DataFrame.unique(*names) = postcondition proved under C02 + the representative lemma: the first row of
+        every key combination, in order."""
+        obj, names = args[0], list(args[1:])
+        ctx = it.ctx
+        cols = _key_columns(it, obj, names)
+        n = cols[0].seq.len
+        kf = [_keyf(it, c) for c in cols]
+        same = lambda a, b: z3.And(*[f(a) == f(b) for f in kf])
+        q = z3.Int("q!gu")
+        first = lambda t: z3.Not(z3.Exists([q], z3.And(0 <= q, q < t, same(q, t))))
+        e = Enum.of(ctx, n, first)
+        rep = ctx.fresh_fn("rep", INT, INT)
+        t = z3.Int("t!gu")
+        ctx.assumptions.append(z3.ForAll([t], z3.Implies(in_range(t, n), z3.And(0 <= rep(t), rep(t) <= t, first(rep(t)), same(rep(t), t))),
+                                         patterns=[rep(t)]))
+        r = Seq(e.cnt, lambda j: e.idx(j), INT)
+        out = _rows_frame(it, obj, r, "unique")
+        self.unique = {"enum": e, "first": first, "same": same, "rep": rep, "n": n}
+        ctx.used_models.add("callee contract: DataFrame.unique on the group columns (postcondition proved under C02, representative lemma)")
+        return out
+
+
+from pyvc.core import Enum
+
+
+def _mk_split(nkeys):
+    names = tuple(f"k{t + 1}" for t in range(nkeys))
+
+    @register
+    class Split(_DF):
+        __doc__ = (f"DataFrame.split on {nkeys} group column(s): the pieces are consecutive segments of ONE permutation of the row numbers "
+                   "(hence pairwise disjoint and covering every row); rows of a piece have equal group keys (missing == missing), rows of "
+                   "different pieces do not; inside a piece the original row order is kept; pieces come in ascending key order; a frame "
+                   "without rows has no pieces.")
+        qualname, prop, variant = "DataFrame.split", "C04", f"{nkeys} group column(s)"
+        timeout_ms = 20000
+
+        def setup(self, cx):
+            self_ = sym_frame(cx, "self")
+            typed_elements(cx, self_)
+            ps = [named_column(cx, self_, nm) for nm in names]
+            # precondition inherited from the sort contracts (C03): key kinds with a total order on the non-missing values
+            for p in ps:
+                cx.assume(z3.And(self_.sym["kind"](p) != KCODE["bytes"], self_.sym["kind"](p) != KCODE["uint"]))
+            g = _GroupingCallees()
+            self.g = g
+            self.callees = dict(DF_CALLEES)
+            self.callees["DataFrame.sort"] = g.sort_contract
+            self.callees["DataFrame.unique"] = g.unique_contract
+            return {"self": self_, "args": list(names), "ps": ps}
+
+        def ensures(self, cx, result):
+            ctx, it = cx.ctx, cx.it
+            self_ = cx.inputs["self"]
+            n = zint(self_.sym["nrow"])
+            from pyvc.interp import PyList
+            ok = isinstance(result, MList)
+            cx.prove("result is a list of index vectors", ok)
+            if not ok:
+                return
+            if isinstance(result.seq, PyList):
+                cx.prove("a literal (empty) list is returned only for a frame without rows", z3.And(n == 0, len(result.seq.items) == 0))
+                return
+            g = self.g
+            cx.prove("ghost: sort and unique were used on the group columns", g.sort is not None and g.unique is not None
+                     and g.sort["names"] == list(names))
+            if g.sort is None or g.unique is None:
+                return
+            pm, klt, same0 = g.sort["perm"], g.sort["klt"], g.sort["same"]
+            e = g.unique["enum"]
+            pieces = result.seq
+            cx.prove("rows exist (the empty frame returns [] before)", n > 0)
+            cx.prove("one piece per distinct key of the sorted rows", zint(pieces.len) == e.cnt)
+            t, j, j2, t2 = ctx.fresh("t", INT), ctx.fresh("j", INT), ctx.fresh("j2", INT), ctx.fresh("t2", INT)
+            ctx.assume(in_range(t, e.cnt))
+            start = e.idx(t)
+            end = z3.If(t + 1 == e.cnt, n, e.idx(t + 1))
+            pc = pieces.at(t)
+            okp = isinstance(pc, NDArr)
+            cx.prove("pieces are arrays", okp)
+            if not okp:
+                return
+            cx.prove("lemma: the first kept row is row 0 of the sorted frame", z3.Implies(e.cnt > 0, e.idx(0) == 0))
+            cx.prove("tiling: piece t is the segment [start_t, start_{t+1}) of the sorted row numbers, the last one ends at nrow",
+                     z3.And(0 <= start, start < end, end <= n, zint(pc.len) == end - start))
+            cx.prove("piece t holds the original row numbers sigma(start_t + j): consecutive segments of one permutation",
+                     z3.Implies(in_range(j, end - start), zint(pc.seq.at(j)) == pm.perm(start + j)))
+            row = lambda tt, jj: pm.perm(e.idx(tt) + jj)
+            # lemma chain (GroupsAreRuns, instantiated): the representative of a sorted position inside piece t is the piece's start
+            rep, first_u, same_u = g.unique["rep"], g.unique["first"], g.unique["same"]
+            cx.prove("lemma: unique's key equality on the sorted rows is the key equality of the original rows they came from",
+                     z3.Implies(z3.And(in_range(j, n), in_range(j2, n)), same_u(j, j2) == same0(pm.perm(j), pm.perm(j2))))
+            for jj in (j, j2):          # the chain is needed for both (arbitrary) positions of the final clause
+                p = start + jj
+                rp = rep(p)
+                cx.prove("lemma: the representative of a position is a kept row", z3.Implies(in_range(jj, end - start),
+                         z3.And(in_range(e.rk(rp), e.cnt), e.idx(e.rk(rp)) == rp, rp <= p)))
+                cx.prove("lemma: ... and it is not a later piece's start", z3.Implies(in_range(jj, end - start), e.rk(rp) <= t))
+                cx.prove("lemma: ... nor an earlier piece's start (sortedness: a key cannot re-appear after a different key)",
+                         z3.Implies(in_range(jj, end - start), e.rk(rp) >= t))
+                cx.prove("lemma: every row of piece t has the key of the piece's first row",
+                         z3.Implies(in_range(jj, end - start), same0(row(t, jj), row(t, 0))))
+            cx.prove("rows of one piece have equal group keys",
+                     z3.Implies(z3.And(in_range(j, end - start), in_range(j2, end - start)), same0(row(t, j), row(t, j2))))
+            cx.prove("inside a piece the original row order is kept",
+                     z3.Implies(z3.And(0 <= j, j < j2, j2 < end - start), row(t, j) < row(t, j2)))
+            cx.prove("pieces come in ascending key order (so different pieces have different keys)",
+                     z3.Implies(z3.And(in_range(t2, e.cnt), t < t2), klt(row(t, 0), row(t2, 0))))
+    Split.__name__ = f"Split{nkeys}"
+    return Split
+
+
+_mk_split(1)
+_mk_split(2)
